@@ -128,6 +128,8 @@ def closed_form_case(ctx, rng, forced=None):
         a, stack, plyts, mn = forced
     p = Panel(a=a, b=b, stack=stack, plyts=plyts, laminaprops=[lp] * len(stack), mu=1500., m=mn, n=mn)
     p.model = 'plate_clt_donnell_bardell'
+    # the option that drops the 16 / 26 coupling terms must be a no-op on a specially orthotropic laminate (it has none)
+    p.force_orthotropic_laminate = bool(rng.random() < 0.4) if not forced else (len(stack) == 3)
     for f in 'uv':      # in-plane free (membrane pre-stress is prescribed), w simply supported (defaults)
         for e in ('1t', '1r', '2t', '2r'):
             for d in 'xy':
@@ -145,7 +147,8 @@ def closed_form_case(ctx, rng, forced=None):
         lam = lowest_buckling(K, KG, 1)[0]
     except (np.linalg.LinAlgError, ValueError, IndexError):
         return None, None
-    desc = dict(a=a, stack=stack, plyts=plyts, mn=mn, ratio=ratio, ritz=float(lam), closed_form=float(best))
+    desc = dict(a=a, stack=stack, plyts=plyts, mn=mn, ratio=ratio, ritz=float(lam), closed_form=float(best),
+                force_orthotropic_laminate=p.force_orthotropic_laminate)
     if lam < best * (1 - 1e-9):
         return desc, 'Ritz buckling load %.9e is BELOW the closed-form value %.9e' % (lam, best)
     if 0.5 <= a <= 2. and lam > best * (1 + 5e-2):
@@ -200,6 +203,7 @@ def analysis_case(ctx, rng, t):
         sweep += [(rng.uniform(0.6, 1.8), mn0), (sweep[0][0], mn0 + 2)]          # same object: other aspect ratio, then more terms
     p = Panel(a=sweep[0][0] * b, b=b, stack=stack, plyt=plyt, laminaprop=lp, mu=mu, m=mn0, n=mn0)
     p.model = 'plate_clt_donnell_bardell'
+    p.force_orthotropic_laminate = (t % 5 == 2)      # a no-op on a specially orthotropic laminate
     for f in 'uv':
         for e in ('1t', '1r', '2t', '2r'):
             for d in 'xy':
@@ -214,7 +218,8 @@ def analysis_case(ctx, rng, t):
         p.a, p.m, p.n = ar * b, mn, mn
         best, wcf = closed_forms(p.a, b, D, mu, h, ratio)
         p.Nxx, p.Nyy, p.Nxy = -best / 2., -ratio * best / 2., 0.         # reference load = half the critical one: multiplier 2
-        desc = dict(unit=unit, thin=thin, stack=stack, plyt=plyt, a=p.a, b=b, mn=mn, ratio=ratio, step=step, closed_form_load=best, closed_form_freq=wcf)
+        desc = dict(unit=unit, thin=thin, stack=stack, plyt=plyt, a=p.a, b=b, mn=mn, ratio=ratio, step=step, closed_form_load=best, closed_form_freq=wcf,
+                    force_orthotropic_laminate=p.force_orthotropic_laminate)
         got = {}
         dense = (step + t) % 2 == 1 and mn <= 10
         try:
